@@ -24,6 +24,7 @@ import random
 import sys
 from typing import List, cast
 
+import struct
 from construct.core import ConstructError
 from construct.core import StreamError
 
@@ -58,7 +59,7 @@ def orig_load_partitions(self):
                 _elem_parent=self,
                 _elem_routines=self._routines
             )
-        except (InvalidPartition, ConstructError) as e:
+        except (InvalidPartition, ConstructError, struct.error) as e:  # as in the tree after the struct.error fix
             break
         partitions.append(partition)
         partition_cnt += 1
